@@ -2,7 +2,7 @@
    The statements (…_stmt) are spelled out in ProofsProps.v / ProofsCmp.v:
      canon r = den r > 0 /\ gcd (num r) (den r) = 1;  toQ r = num r / den r in Coq's Q;  red = true is Reduce mode. *)
 From Coq Require Import ZArith QArith.
-From C10 Require Import Model ProofsBase ProofsCmp ProofsProps.
+From C10 Require Import Model ProofsBase ProofsCmp ProofsProps ProofsMisc.
 Local Open Scope Z_scope.
 
 Theorem C10_canonical_zero_is_0_over_1 : Canonical_zero_stmt.        Proof. exact canonical_zero_thm. Qed.
@@ -57,3 +57,9 @@ Theorem C10_qfield_neg_inv_canonical_exact : QField_unary_stmt.       Proof. exa
 Print Assumptions C10_qfield_neg_inv_canonical_exact.
 Theorem C10_qfield_axpy_family_canonical_exact : QField_axpy_stmt.    Proof. exact qfield_axpy_thm. Qed.
 Print Assumptions C10_qfield_axpy_family_canonical_exact.
+Theorem C10_conversion_to_integer_types_truncates : Conv_int_stmt.    Proof. exact conv_int_thm. Qed.
+Print Assumptions C10_conversion_to_integer_types_truncates.
+Theorem C10_print_shows_denominator_iff_not_integer : Print_stmt.     Proof. exact print_thm. Qed.
+Print Assumptions C10_print_shows_denominator_iff_not_integer.
+Theorem C10_operator_mod_is_the_residue : Mod_stmt.                    Proof. exact mod_thm. Qed.
+Print Assumptions C10_operator_mod_is_the_residue.
